@@ -3,6 +3,8 @@
 package props
 
 import (
+	"net"
+	"io"
 	"errors"
 	"fmt"
 	"time"
@@ -92,6 +94,9 @@ type c14Fault struct {
 
 var errC14 = errors.New("verif: injected docker fault")
 
+var c14ReadErrs = []error{errC14, fmt.Errorf("read unix @->/var/run/docker.sock: %w", io.ErrUnexpectedEOF),
+	fmt.Errorf("verif: http2: stream closed: %w", io.EOF), &net.OpError{Op: "read", Net: "unix", Err: errors.New("connection reset by peer")}}
+
 // applyFault installs the fault and returns a function deciding whether it fired.
 func applyFault(fd *FakeDocker, inv []CSpec, f c14Fault) func() bool {
 	switch f.Kind {
@@ -103,7 +108,9 @@ func applyFault(fd *FakeDocker, inv []CSpec, f c14Fault) func() bool {
 		return func() bool { _, _, fired, _ := fd.Ledger(); return fired > 0 }
 	case "read":
 		fd.Containers[f.Container].Plan.FailAt = f.At
-		fd.Containers[f.Container].Plan.FailErr = errC14
+		// transport errors come in many shapes; some wrap an EOF sentinel (a connection torn down
+		// mid-body) without being a clean end of the log
+		fd.Containers[f.Container].Plan.FailErr = c14ReadErrs[(f.At+f.Container)%len(c14ReadErrs)]
 		return func() bool { _, _, fired, _ := fd.Ledger(); return fired > 0 }
 	case "trunc":
 		fc := fd.Containers[f.Container]
